@@ -582,6 +582,11 @@ void bn_rec_rtnaf(int8_t *tnaf, size_t *len, const bn_t k, int8_t u, size_t m,
 		bn_rec_tnaf_get(&t_w, beta, gama, u, w);
 		bn_abs(tmp, k);
 		bn_rec_tnaf_mod(r0, r1, tmp, u, m);
+		/* The regular recoding only has odd digits, for odd r0 and r1. */
+		if (bn_is_even(r0) || bn_is_even(r1)) {
+			*len = 0;
+			RLC_THROW(ERR_NO_VALID);
+		}
 		mask = RLC_MASK(w);
 		l = RLC_CEIL(m + 2, (w - 1));
 
